@@ -271,9 +271,19 @@ func safeName(s string) string {
 
 // finish prints known findings / violations, writes replay files, returns the exit code.
 func (cx *Ctx) finish() int {
+	// A violation that was reproduced and minimised stands on its own, whatever else went wrong in the run: it is
+	// printed and the exit code is 1. Trouble without any confirmed violation is exit 2 (never a VIOLATION).
+	confirmed := 0
+	for _, v := range cx.Viol {
+		if v.Replay != nil && cx.isKnown(v.Key) == nil {
+			confirmed++
+		}
+	}
 	if len(cx.Trouble) > 0 {
 		fmt.Printf("HARNESS-TROUBLE property=%s: %d problem(s); first: %s\n", cx.Prop, len(cx.Trouble), cx.Trouble[0])
-		return 2
+		if confirmed == 0 {
+			return 2
+		}
 	}
 	exit := 0
 	dir := filepath.Join(cx.Verif, "out", "replays")
